@@ -3,7 +3,7 @@
    Models: Num/IntParse.v (atox.hpp), Num/DecParse.v (numb.hpp around fast_float's tokenizer),
    Num/Nearest.v (decimal -> binary64 reference), Num/Printf.v (to_str_prec length / checker). *)
 From GV Require Import Base.Str Num.IntParse Num.IntParseProofs Num.DecParse Num.DecParseProofs
-  Num.Nearest Num.Printf Num.PrintfProofs.
+  Num.Nearest Num.Printf Num.PrintfProofs Num.NearestProofs.
 Local Open Scope Z_scope.
 
 (* ---- cif::as_number (repaired code): for every conversion rnd of decimals to doubles that reports
@@ -110,3 +110,16 @@ Theorem C12_nearest_double_half_ulp_partial : forall m e k,
   0 < de /\ - de <= 2 * (nu - round_at m e k * de) <= de.
 Proof. exact round_at_half_ulp. Qed.
 Print Assumptions C12_nearest_double_half_ulp_partial.
+
+(* what nearest_pos returns is that rounding at some binary exponent k0, renormalised after a carry;
+   never zero, never beyond the largest exponent (those cases are reported as out of range) *)
+Theorem C12_nearest_double_is_rounding : forall m e q k, nearest_pos m e = Finite q k ->
+  exists k0, k0 <= k /\ q * 2 ^ (k - k0) = round_at m e k0 /\ q <> 0 /\ k <= 971.
+Proof. exact nearest_pos_value. Qed.
+Print Assumptions C12_nearest_double_is_rounding.
+
+Theorem C12_bits_roundtrip : forall neg q k,
+  (2 ^ 52 <= q < 2 ^ 53 /\ -1074 <= k <= 971) \/ (0 <= q < 2 ^ 52 /\ k = -1074) ->
+  decode_bits (bits_of neg q k) = Some (neg, q, k).
+Proof. exact decode_bits_of. Qed.
+Print Assumptions C12_bits_roundtrip.
